@@ -4,6 +4,7 @@
 package vc08
 
 import (
+	"bufio"
 	"bytes"
 	"crypto"
 	"crypto/ed25519"
@@ -14,9 +15,13 @@ import (
 	"encoding/hex"
 	"errors"
 	"fmt"
+	"io"
+	"net"
 	"os"
 	"os/exec"
 	"strings"
+	"sync"
+	"time"
 
 	"github.com/foxcpp/maddy/internal/verifshim/vh"
 )
@@ -741,4 +746,412 @@ func MutateSig(r *vh.Rng, payload []byte) ([]byte, string) {
 	}
 	fields[idx] = []byte(f[:colon+1] + strings.Join(parts, ";") + "\r\n")
 	return Join(fields, body), kind
+}
+
+// ---------------------------------------------------------------- run-length form of byte strings in op lines
+
+// Enc encodes a byte string for an op line: plain hex (as vh.HexBytes) when it has no long run,
+// otherwise segments joined by "_", a segment being hex or hex*count (one octet repeated).  Padded
+// messages of a megabyte stay a few kilobytes long in op lines and replay files.
+func Enc(b []byte) string {
+	if len(b) == 0 {
+		return "-"
+	}
+	const minRun = 24
+	var segs []string
+	lit := 0 // start of the pending literal
+	i := 0
+	for i < len(b) {
+		j := i + 1
+		for j < len(b) && b[j] == b[i] {
+			j++
+		}
+		if j-i >= minRun {
+			if i > lit {
+				segs = append(segs, vh.HexBytes(b[lit:i]))
+			}
+			segs = append(segs, fmt.Sprintf("%s*%d", vh.HexBytes(b[i:i+1]), j-i))
+			lit = j
+		}
+		i = j
+	}
+	if lit < len(b) {
+		segs = append(segs, vh.HexBytes(b[lit:]))
+	}
+	return strings.Join(segs, "_")
+}
+
+// Dec is the inverse of Enc (plain hex included).
+func Dec(s string) []byte {
+	if s == "-" || s == "" {
+		return nil
+	}
+	if !strings.ContainsAny(s, "_*") {
+		return vh.UnhexBytes(s)
+	}
+	var out []byte
+	for _, seg := range strings.Split(s, "_") {
+		if k := strings.IndexByte(seg, '*'); k >= 0 {
+			n := 0
+			fmt.Sscanf(seg[k+1:], "%d", &n)
+			out = append(out, bytes.Repeat(vh.UnhexBytes(seg[:k]), n)...)
+		} else {
+			out = append(out, vh.UnhexBytes(seg)...)
+		}
+	}
+	return out
+}
+
+func EncList(fs [][]byte) string {
+	var p []string
+	for _, f := range fs {
+		p = append(p, Enc(f))
+	}
+	return strings.Join(p, " ")
+}
+
+// ---------------------------------------------------------------- padding (sizes around plausible limits)
+
+// Pad returns raw header fields of exactly total octets (total >= 40) that no signing
+// configuration lists: shape 0 = single-line fields of 900-990 octets, 1 = folded fields of up to
+// 48 KiB with continuation lines of up to 990 octets, 2 = many short fields.
+func Pad(r *vh.Rng, total, shape int) [][]byte {
+	var out [][]byte
+	one := func(i, size int) []byte { // a single-line field of exactly size octets
+		f := []byte(fmt.Sprintf("X-Pad-%d: ", i))
+		if size < len(f)+2 {
+			panic("vc08.Pad: field too small")
+		}
+		f = append(f, bytes.Repeat([]byte{byte('a' + i%26)}, size-len(f)-2)...)
+		return append(f, '\r', '\n')
+	}
+	const min = 20
+	switch shape {
+	case 1:
+		// folded fields ("X-Pad-Folded-<i>: start" and continuation lines " " + run) of at most some
+		// 48 KiB each (the model's readers append line by line: quadratic in the size of ONE field)
+		rem := total
+		for i := 0; rem > 0; i++ {
+			size := rem
+			if size > 49000 {
+				size = 30000 + r.Intn(18000)
+				if rem-size < 100 {
+					size = rem / 2
+				}
+			}
+			f := []byte(fmt.Sprintf("X-Pad-Folded-%d: start\r\n", i))
+			left := size - len(f)
+			if left < 8 {
+				out = append(out, one(i, size))
+				rem -= size
+				continue
+			}
+			for j := 0; left > 0; j++ {
+				n := 700 + r.Intn(288) // line length incl. the leading space, without CRLF
+				if left < n+2+4 {
+					n = left - 2 // >= 2: every round leaves at least 4 octets or none
+				}
+				f = append(f, ' ')
+				f = append(f, bytes.Repeat([]byte{byte('A' + (i+j)%26)}, n-1)...)
+				f = append(f, '\r', '\n')
+				left -= n + 2
+			}
+			out = append(out, f)
+			rem -= size
+		}
+		return out
+	case 2:
+		rem := total
+		for i := 0; rem > 0; i++ {
+			n := min + r.Intn(20)
+			if rem < n+min {
+				n = rem
+			}
+			out = append(out, one(i, n))
+			rem -= n
+		}
+		return out
+	}
+	rem := total
+	for i := 0; rem > 0; i++ {
+		n := 900 + r.Intn(90)
+		if rem < n+min {
+			if rem > 990 {
+				n = rem / 2
+			} else {
+				n = rem
+			}
+		}
+		out = append(out, one(i, n))
+		rem -= n
+	}
+	return out
+}
+
+// PadBody returns CRLF-terminated lines of exactly total octets (total >= 2), some starting with a dot.
+func PadBody(r *vh.Rng, total int) []byte {
+	var b []byte
+	rem := total
+	for i := 0; rem > 0; i++ {
+		n := 600 + r.Intn(398) // line without CRLF
+		if rem < n+2+2 {
+			n = rem - 2
+		}
+		if n < 0 {
+			n = 0
+			rem = 2
+		}
+		ch := byte('a' + i%26)
+		if i%7 == 3 && n > 0 {
+			b = append(b, '.')
+			b = append(b, bytes.Repeat([]byte{ch}, n-1)...)
+		} else {
+			b = append(b, bytes.Repeat([]byte{ch}, n)...)
+		}
+		b = append(b, '\r', '\n')
+		rem -= n + 2
+	}
+	return b
+}
+
+// ---------------------------------------------------------------- fault injection
+
+// ErrInjected is the I/O error the fault injectors return.
+var ErrInjected = errors.New("c08: injected I/O error")
+
+// FaultReader yields the first K octets of Data in reads of at most Chunk octets (0 = as asked)
+// and then fails.  Together: the error comes with the last octets instead of on the next Read.
+type FaultReader struct {
+	Data     []byte
+	K        int
+	Chunk    int
+	Together bool
+	off      int
+}
+
+func (f *FaultReader) Read(p []byte) (int, error) {
+	if f.K > len(f.Data) {
+		f.K = len(f.Data)
+	}
+	if f.off >= f.K {
+		return 0, ErrInjected
+	}
+	n := f.K - f.off
+	if n > len(p) {
+		n = len(p)
+	}
+	if f.Chunk > 0 && n > f.Chunk {
+		n = f.Chunk
+	}
+	copy(p, f.Data[f.off:f.off+n])
+	f.off += n
+	if f.Together && f.off >= f.K {
+		return n, ErrInjected
+	}
+	return n, nil
+}
+
+func (f *FaultReader) Close() error { return nil }
+
+// ChunkReader yields Data completely, in reads of at most Chunk octets.
+type ChunkReader struct {
+	Data  []byte
+	Chunk int
+	off   int
+}
+
+func (c *ChunkReader) Read(p []byte) (int, error) {
+	if c.off >= len(c.Data) {
+		return 0, io.EOF
+	}
+	n := len(c.Data) - c.off
+	if n > len(p) {
+		n = len(p)
+	}
+	if c.Chunk > 0 && n > c.Chunk {
+		n = c.Chunk
+	}
+	copy(p, c.Data[c.off:c.off+n])
+	c.off += n
+	return n, nil
+}
+
+func (c *ChunkReader) Close() error { return nil }
+
+// FaultConn fails one Write: the one that would take the number of octets written after the
+// DATA command line beyond K (it writes the octets up to K, then reports a time-out); the
+// connection itself stays usable.
+type FaultConn struct {
+	net.Conn
+	K      int
+	inData bool
+	n      int
+	Fired  bool
+}
+
+type timeoutErr struct{}
+
+func (timeoutErr) Error() string   { return "c08: injected write time-out" }
+func (timeoutErr) Timeout() bool   { return true }
+func (timeoutErr) Temporary() bool { return true }
+
+func (f *FaultConn) Write(p []byte) (int, error) {
+	if !f.inData {
+		if bytes.HasPrefix(bytes.ToUpper(p), []byte("DATA\r\n")) {
+			f.inData = true
+		}
+		return f.Conn.Write(p)
+	}
+	if f.Fired || f.n+len(p) <= f.K {
+		n, err := f.Conn.Write(p)
+		f.n += n
+		return n, err
+	}
+	f.Fired = true
+	keep := f.K - f.n
+	n, err := f.Conn.Write(p[:keep])
+	f.n += n
+	if err != nil {
+		return n, err
+	}
+	return n, &net.OpError{Op: "write", Net: "tcp", Err: timeoutErr{}}
+}
+
+// ---------------------------------------------------------------- a raw next hop
+
+// RawTx is one DATA phase seen by the raw next hop.
+type RawTx struct {
+	Wire     []byte // the octets received after the 354 reply, end-of-data marker included
+	Accepted bool   // the end-of-data marker arrived and 250 was sent
+}
+
+// Payload undoes the dot encoding of an accepted transaction the naive way.
+func (t RawTx) Payload() []byte {
+	w := t.Wire
+	if !t.Accepted || len(w) < 3 {
+		return nil
+	}
+	w = w[:len(w)-3] // ".\r\n"; the CRLF before it ends the last line of the message
+	var out []byte
+	for len(w) > 0 {
+		i := bytes.Index(w, []byte("\r\n"))
+		line := w
+		if i >= 0 {
+			line = w[:i+2]
+		}
+		w = w[len(line):]
+		if line[0] == '.' {
+			line = line[1:]
+		}
+		out = append(out, line...)
+	}
+	return out
+}
+
+// Raw is a hand-written SMTP / LMTP next hop (no go-smtp): it records the octets of every DATA
+// phase and whether it acknowledged the message.  The end-of-data marker is looked for the way
+// RFC 5321 4.1.1.4 describes it: a line consisting of a single dot.
+type Raw struct {
+	l    net.Listener
+	LMTP bool
+	mu   sync.Mutex
+	txs  []RawTx
+	wg   sync.WaitGroup
+}
+
+func StartRaw(lmtp bool) (*Raw, string, error) {
+	l, err := net.Listen("tcp", "127.0.0.1:0")
+	if err != nil {
+		return nil, "", err
+	}
+	r := &Raw{l: l, LMTP: lmtp}
+	go func() {
+		for {
+			c, err := l.Accept()
+			if err != nil {
+				return
+			}
+			r.wg.Add(1)
+			go func() { defer r.wg.Done(); r.handle(c) }()
+		}
+	}()
+	_, port, _ := net.SplitHostPort(l.Addr().String())
+	return r, port, nil
+}
+
+func (r *Raw) Close() { r.l.Close() }
+
+// Take waits until every connection opened so far is finished and returns (and forgets) the transactions.
+func (r *Raw) Take() []RawTx {
+	r.wg.Wait()
+	r.mu.Lock()
+	defer r.mu.Unlock()
+	t := r.txs
+	r.txs = nil
+	return t
+}
+
+func (r *Raw) handle(c net.Conn) {
+	defer c.Close()
+	c.SetDeadline(time.Now().Add(60 * time.Second))
+	br := bufio.NewReaderSize(c, 1<<16)
+	w := func(s string) { c.Write([]byte(s + "\r\n")) }
+	w("220 raw.example.invalid ready")
+	rcpts := 0
+	for {
+		line, err := br.ReadString('\n')
+		if err != nil {
+			return
+		}
+		cmd := strings.ToUpper(strings.TrimSpace(line))
+		switch {
+		case strings.HasPrefix(cmd, "EHLO"), strings.HasPrefix(cmd, "LHLO"):
+			w("250-raw.example.invalid")
+			w("250-SMTPUTF8")
+			w("250-ENHANCEDSTATUSCODES")
+			w("250 8BITMIME")
+		case strings.HasPrefix(cmd, "HELO"):
+			w("250 raw.example.invalid")
+		case strings.HasPrefix(cmd, "MAIL"):
+			rcpts = 0
+			w("250 2.1.0 ok")
+		case strings.HasPrefix(cmd, "RCPT"):
+			rcpts++
+			w("250 2.1.5 ok")
+		case cmd == "DATA":
+			w("354 go ahead")
+			var wire []byte
+			done := false
+			for !done {
+				l, err := br.ReadBytes('\n')
+				wire = append(wire, l...)
+				if err != nil {
+					break
+				}
+				if string(l) == ".\r\n" && (len(wire) == 3 || bytes.HasSuffix(wire, []byte("\r\n.\r\n"))) {
+					done = true
+				}
+			}
+			r.mu.Lock()
+			r.txs = append(r.txs, RawTx{Wire: wire, Accepted: done})
+			r.mu.Unlock()
+			if !done {
+				return
+			}
+			n := 1
+			if r.LMTP {
+				n = rcpts
+			}
+			for i := 0; i < n; i++ {
+				w("250 2.0.0 accepted")
+			}
+		case strings.HasPrefix(cmd, "RSET"), strings.HasPrefix(cmd, "NOOP"):
+			w("250 2.0.0 ok")
+		case strings.HasPrefix(cmd, "QUIT"):
+			w("221 2.0.0 bye")
+			return
+		default:
+			w("500 5.5.1 what")
+		}
+	}
 }
